@@ -69,7 +69,71 @@ CHECKS = {
             "(e.g. byteorder u24 assertion) are covered by the correspondence run, the theorem stops before moov encoding. " + TB),
 }
 
-PENDING = {}
+
+CHECKS.update({
+    "C04": ("proof",
+            "Kernel-checked: one round-trip theorem per box (Props/C04.v, 39 theorems: every leaf box, the three sample entries with their configuration records, "
+            "the esds descriptors; containers as they land): for every value representable in the wire format the encoder returns box_size, writes exactly "
+            "header(size, own four-cc) ++ payload of that length without seeking, and decoding at ANY position followed by ANY sibling bytes, in either build mode, "
+            "returns the value and leaves the stream exactly at the end of the box. Tie: the extracted codec model vs the real codec on the enumerated shape space "
+            "(value trees parsed from {:?}, positions, sizes, return values, bytes). Oracle on the real codec: size/return/header laws, exact consumption with a "
+            "trailing sibling, decode(encode(v)) = v.",
+            "Coq round-trip proofs per box + model/implementation correspondence on the shape space",
+            "Containers (moov, trak, ...) are covered by correspondence and the oracle until their theorems land. Known finding D80 (AAC object type >= 32). " + TB),
+    "C05": ("proof",
+            "Kernel-checked: the third conjunct of every round-trip theorem states that the encoder's bytes ARE the ISO layout iso_xxx_payload (Iso/*.v, written "
+            "from ISO/IEC 14496-12/-14/-15 without reference to the encoder), the fifth that the decoder inverts that layout (restated for representative boxes in "
+            "Props/C05.v); hdr64_equiv (Props/C12.v) covers the 64-bit size form. Oracle: boxes rendered by the independent reference renderer must be reproduced "
+            "byte for byte; 64-bit-header and padded-descriptor forms decode to the same value; codec parameters exposed by the reader equal the encoded ones for all "
+            "AAC object type x frequency index x channel layout triples and AVC parameter sets.",
+            "Coq proofs against an independent ISO layout + reference-rendered inputs on the real codec",
+            "Two reference renderings exist: Iso/*.v (Coq, used in the theorems) and gen/isogen.py (Python, used to generate inputs); both written from the standards. " + TB),
+    "C06": ("proof",
+            "Kernel-checked (Props/C06.v): for every byte string with its true length (< 2^62) and both build modes, read_header and read_fragment_header (against ANY "
+            "reader value) never panic; every reader returned by them satisfies reader_ok, and on such readers sample_count / sample_offset / read_sample for every "
+            "track id and every u32 sample id and all Result-valued accessors never panic (no-panic Hoare triples for all 43 decoders, the loop combinator for all fuel, "
+            "the lookups on arbitrary parsed tables). Tie: the model's outcome class incl. panic predictions vs the real reader on structure-aware mutations. Oracle: "
+            "catch_unwind around every read-side call incl. to_json/summary, worker exit status, debug and release.",
+            "Coq no-panic Hoare logic over the reader model + catch_unwind exploration",
+            "to_json/summary/frame_rate/float bitrate are not modelled (oracle only); stack depth is bounded by the acyclic box nesting (runtime: worker exit status). " + TB),
+    "C09": ("proof",
+            "Kernel-checked (frag_lookup_sound, frag_read_sample_sound): for every consistent list of track fragments (unbounded), both build modes, the fragment branches "
+            "of the lookup model return exactly what the independent movie-fragment specification (Spec/Fragment.v) defines: offset = explicit base or moof start + run data "
+            "offset + earlier sizes, start = tfdt + earlier durations, duration per-sample / tfhd default / movie default, signed composition offset, count = sum of runs; ids "
+            "outside never yield a sample. Tie/oracle: extracted specification and models vs the real reader on shape-exhaustive and random fragmented movies, as one stream and "
+            "as init + media segment.",
+            "Coq proof (lookup model = fragment specification) + correspondence",
+            "Known finding D72 (single trex). Runs without per-sample sizes / without tfdt are outside the property. " + TB),
+    "C10": ("proof",
+            "PARTIAL. Kernel-checked for the model: every program of the read and write monads (open, open fragment, read_sample, every encoder) returns Err EIo whenever the "
+            "injected fault is delivered, and a fault armed within the run's call count is delivered (free-monad theorems, no catch node exists). Not expressible in the "
+            "model: that std's read_exact/write_all and byteorder loop over short transfers and retry Interrupted (a transfer is atomic in the model) — that half is "
+            "exercised, not proved: every fault index x {error, zero-length write} on files and histories, transfer splitting at 1/2/3/7 bytes with Interrupted.",
+            "Coq free-monad fault theorem + exhaustive fault-index enumeration on the real code",
+            "Labelled partial: the short-transfer half is fault_enumeration-level evidence only. The muxer is stopped after the first I/O error (the property speaks of the call in progress). " + TB),
+    "C11": ("proof",
+            "Kernel-checked: prefix_stable (any run that does not hit the end of the prefix behaves identically on the complete data: Ok, data errors and panics alike), "
+            "read_sample_prefix, open_prefix_moov (same ftyp/moov, moofs of the prefix reader are a prefix), truncated_unfragmented and truncated_fragmented (samples read through "
+            "the prefix reader equal those of the complete file in bytes and timing). Oracle: EVERY cut of generated (all layouts) and canned files on the real reader.",
+            "Coq prefix-stability proofs + exhaustive cut enumeration",
+            "Known finding D92 (hybrid files with sample table AND fragments). Same fuel for prefix and full run in the theorems. " + TB),
+    "C12": ("proof",
+            "Kernel-checked mechanisms (Props/C12.v): 64-bit headers decode identically (hdr64, 13 boxes + generic), unknown/free boxes are skipped by the loop combinator in "
+            "every guard configuration (instances: top level and 10 containers), spare bytes after fixed-layout and table boxes are ignored (13 boxes), different-typed siblings "
+            "commute; layout_invariance for ten containers and the top level; sample offsets shift with the data. Oracle: metamorphic comparison of layout variants on the real reader.",
+            "Coq proofs of the skipping/commutation mechanisms + metamorphic layout variants",
+            "The single end-to-end theorem over arbitrary box trees is kept as C12_statement (not proved); stsd/edts/hev1/vp09/dref read one child and are outside 'containers that iterate'. " + TB),
+    "C15": ("proof",
+            "PARTIAL. Kernel-checked for the model: read_sample's result is independent of the stream position, the stream content is immutable, and any schedule of calls "
+            "returns call by call what a fresh reader returns. Hidden mutable state / iteration order in live Rust objects cannot be exhibited by a pure model: exercised by "
+            "random call schedules vs fresh readers, the same bytes opened in separate processes, the same history muxed three times.",
+            "Coq purity proofs + schedule exploration on the real reader",
+            "Labelled partial: determinism of the real objects is exploration-level evidence. " + TB),
+})
+
+PENDING = {"C07": "check runs (counters vs linear budget, model meters = implementation counters) but its Coq cost theorems are still being proved; not claimed yet",
+           "C08": "check runs (counting allocator vs linear bound) but its Coq allocation theorems are still being proved; not claimed yet",
+           "C18": "check runs (tag oracle + model correspondence) but its Coq theorem is still being proved; not claimed yet"}
 
 
 def main():
